@@ -50,8 +50,14 @@ import GqlModel.Validate.Spec.Links
                                   structured demands `docDemands`; for a valid document on a closed
                                   schema every demand is met by an event, every variable use shows an
                                   admissible candidate, and every demanded link is present
+    C09_expected_links_met        (e) in the terms of `linkscheck`: every expected link has an event
+                                  whose dump line (`Event.linkFields`, printed by `Event.linkLine`)
+                                  carries its start, kind and every demanded field
+    C09_untyped_values_only_in_custom_scalars   under ValuesOfCorrectType the only values without a
+                                  demanded expected type are the contents of custom-scalar literals
+    C09_default_rule_reports_nothing, C09_link_rules_of_valid   validity → the rule predicates used
   Proof files: `GqlProofs/ValSpec/{ValueLinks,Built,Reach,VarLinks,ValueDoc,VarUses,Demands,Capstone,
-  ReachSpec,VarCands,Present,LinkWitness}.lean`.
+  ReachSpec,VarCands,Present,CustomScalar,DumpLine,LinkWitness}.lean`.
 
   What is still NOT proved (kept as the goal):
     C09_links_complete : Closed s → validate defaultRules s d = .ok [] →
@@ -304,7 +310,7 @@ theorem C09_inline_fragment_link_counterexample :
 /-! ## The capstone -/
 
 /-- a rule of the default rule set reports nothing on a document that validates (C18) -/
-theorem validate_default_single (s : Schema) (d : QueryDoc) (h : validate defaultRules s d = .ok [])
+theorem C09_default_rule_reports_nothing (s : Schema) (d : QueryDoc) (h : validate defaultRules s d = .ok [])
     (r : Rule) (hmem : r ∈ defaultRules) : validate [r] s d = .ok [] := by
   have hd : (defaultRules.map (·.name)).Nodup := by decide
   unfold validate at *
@@ -316,22 +322,22 @@ theorem validate_default_single (s : Schema) (d : QueryDoc) (h : validate defaul
 /-- what validity says about links: FieldsOnCorrectType, KnownFragmentNames, KnownDirectives and
     KnownArgumentNames through their C08 equivalences; KnownRootType and KnownTypeNames (no
     equivalence yet) as the hypotheses `hKnownRootType`, `hKnownTypeNames` -/
-theorem linkRules_of_valid (s : Schema) (d : QueryDoc) (hvalid : validate defaultRules s d = .ok [])
+theorem C09_link_rules_of_valid (s : Schema) (d : QueryDoc) (hvalid : validate defaultRules s d = .ok [])
     (hwp : Spec.wellParented s d = true) (hk : ∀ op ∈ d.ops, op.op ∈ parserOpKinds)
     (hKnownRootType : Spec.knownRootType s d = true)
     (hKnownTypeNames : Spec.variableTypesExist s d = true ∧ Spec.fragmentSpreadTypeExistence s d = true) :
     LinkRules s d :=
   { knownRootType := hKnownRootType
     fieldSelections := (C08_FieldsOnCorrectType s d hwp).1
-      (validate_default_single s d hvalid _ (List.mem_filterMap.2 ⟨"FieldsOnCorrectType", by decide, rfl⟩))
+      (C09_default_rule_reports_nothing s d hvalid _ (List.mem_filterMap.2 ⟨"FieldsOnCorrectType", by decide, rfl⟩))
     typeConditions := hKnownTypeNames.2
     variableTypes := hKnownTypeNames.1
     spreads := (C08_KnownFragmentNames s d).1
-      (validate_default_single s d hvalid _ (List.mem_filterMap.2 ⟨"KnownFragmentNames", by decide, rfl⟩))
+      (C09_default_rule_reports_nothing s d hvalid _ (List.mem_filterMap.2 ⟨"KnownFragmentNames", by decide, rfl⟩))
     directives := ((C08_KnownDirectives s d hk).1
-      (validate_default_single s d hvalid _ (List.mem_filterMap.2 ⟨"KnownDirectives", by decide, rfl⟩))).1
+      (C09_default_rule_reports_nothing s d hvalid _ (List.mem_filterMap.2 ⟨"KnownDirectives", by decide, rfl⟩))).1
     argumentNames := (C08_KnownArgumentNames s d hwp hk).1
-      (validate_default_single s d hvalid _ (List.mem_filterMap.2 ⟨"KnownArgumentNames", by decide, rfl⟩)) }
+      (C09_default_rule_reports_nothing s d hvalid _ (List.mem_filterMap.2 ⟨"KnownArgumentNames", by decide, rfl⟩)) }
 
 /-- (e) THE CAPSTONE over all node kinds, for documents that pass validation (`errors = []`) against
     a closed schema.
@@ -382,7 +388,7 @@ theorem C09_links_correct (s : Schema) (d : QueryDoc) (evs : List Event) (hw : w
         varText (e.links.varDef p.start) ∈ cands raw) ∧
     (∀ dm ∈ docDemands s d, dm.Present s d) :=
   ⟨expectedLinks_eq s d, docDemands_met s d evs hw hwp hk, docDemands_var_met s d evs hw hwp hpos,
-   docDemands_present s d hs hString (linkRules_of_valid s d hvalid hwp hk hKnownRootType hKnownTypeNames)⟩
+   docDemands_present s d hs hString (C09_link_rules_of_valid s d hvalid hwp hk hKnownRootType hKnownTypeNames)⟩
 
 /-- (e) in the terms of `linkscheck`: for every expected link `x` of `Spec.expectedLinks s d` other
     than an inline fragment's (the known finding) the run has an event whose dump line — as data,
@@ -465,7 +471,7 @@ theorem C09_untyped_values_only_in_custom_scalars (s : Schema) (d : QueryDoc)
     ∀ o, SpecValOcc s d o → o.typed = false →
       ∃ r, SpecValOcc s d r ∧ r.typed = true ∧ (∃ dd, r.dfn = some dd ∧ Spec.structuredAtNamed dd = true) ∧
         o ∈ valOccs s r.typed r.exp r.dfn r.v := by
-  have hr := linkRules_of_valid s d hvalid hwp hk hKnownRootType hKnownTypeNames
+  have hr := C09_link_rules_of_valid s d hvalid hwp hk hKnownRootType hKnownTypeNames
   have hpar := parents_present s d hs.fieldTypes hString hr.knownRootType hr.fieldSelections hr.typeConditions
   have hsites := argSites_present s d hs hpar hr.fieldSelections hr.directives hr.argumentNames
   intro o ho hot
@@ -587,3 +593,5 @@ end NonVacuity
 #print axioms C09_links_correct
 #print axioms C09_expected_links_met
 #print axioms C09_untyped_values_only_in_custom_scalars
+#print axioms C09_default_rule_reports_nothing
+#print axioms C09_link_rules_of_valid
